@@ -174,11 +174,12 @@ CLAIMED.update({
             "phased individuals are never blocked; infer+rescale prefix on two input phasings uses identical counts.",
             "EP's block updates depend on the input only through block_likelihoods/block_nodes; fitted phases not NaN.",
             TECH + "; relational (two-input) execution", "4/C22"),
-    "C23": ("infer (flip/placement) + rescale prefix + reallocate_unphased with symbolic phases in [0,1] on 3 layouts x both "
+    "C23": ("infer (flip/placement) + rescale prefix + reallocate_unphased with symbolic phases in [0,1] on 4 layouts (incl. a leaf edge shared by two blocks) x both "
             "match_segregating_sites: phased edges/spans unchanged, each block's edges get exactly its singletons in total, "
             "the placed edge gets the share >= 1/2.  Found defect F7 (repaired: fix commit 8c402f4).",
             "Fitted phases not NaN; rest of rescale is C25.", TECH, "4/C23"),
-    "C24": ("_count_mutations (plain / frequency-weighted / explicit sample set) and _block_singletons on 11 skeletons with "
+    "C24": ("_count_mutations (plain / frequency-weighted / explicit sample set), the public count_mutations(ts) wrapper "
+            "and _block_singletons on 14 skeletons (incl. multiply-hit / monomorphic sites, a mutation above a local root) with "
             "symbolic breakpoints, length and site positions: every edge span / mutation tally / block span / singleton "
             "count equals a direct per-tree tally via tskit's Tree API.  Found defect F5 (repaired: cd76f03).",
             "tskit index arrays of the skeleton (depend only on coordinate order).", TECH, "4/C24"),
@@ -195,8 +196,8 @@ CLAIMED.update({
             "(local trees unchanged), leftmost piece keeps id, new ids = split_nodes, contiguity, samples never split, "
             "mutations on the piece present at their position.  Known finding F11 (edgeless nodes / trailing gap).",
             "Node-table rewrite and metadata packing are tskit's.", TECH, "4/C29"),
-    "C30": ("_contains_unary_nodes with symbolic breakpoints (with/without sample mask) equals a per-tree oracle on 12 "
-            "skeletons; contains_unary_nodes, has_locally_unary_nodes, _check_valid_inputs compared with the same oracle.",
+    "C30": ("_contains_unary_nodes with symbolic breakpoints (with/without sample mask) equals a per-tree oracle on 18 "
+            "skeletons (incl. unary nodes that appear at removal-only breakpoints); contains_unary_nodes, has_locally_unary_nodes, _check_valid_inputs compared with the same oracle.",
             "tskit index arrays of the skeleton.", TECH, "4/C30"),
     "C34": ("run_date/run_preprocess with recorders and solver-chosen present/absent/explicit-zero options: each option "
             "reaches the API under its name as the same object, invalid combinations exit before load/dump, valid ones "
